@@ -267,8 +267,9 @@ where
 
     /// Default service to be used if no matching resource could be found.
     ///
-    /// If a default service is not registered, it will fall back to the default service of
-    /// the parent [`App`](crate::App) (see [`App::default_service`](crate::App::default_service)).
+    /// If a default service is not registered, it will fall back to the default service of the
+    /// nearest enclosing [`Scope`] that has one, and finally to the default service of the parent
+    /// [`App`](crate::App) (see [`App::default_service`](crate::App::default_service)).
     pub fn default_service<F, U>(mut self, f: F) -> Self
     where
         F: IntoServiceFactory<U, ServiceRequest>,
@@ -384,6 +385,10 @@ where
 
         // register nested services
         let mut cfg = config.clone_config();
+
+        // nested scopes fall back to the nearest enclosing default service: this scope's own one
+        // if set, otherwise the one this scope itself inherited
+        cfg.set_default_service(Rc::clone(&default));
 
         // Update the prefix for the nested scope
         #[cfg(feature = "experimental-introspection")]
@@ -947,6 +952,37 @@ mod tests {
         assert_eq!(resp.status(), StatusCode::BAD_REQUEST);
 
         let req = TestRequest::with_uri("/app2/non-exist").to_request();
+        let resp = srv.call(req).await.unwrap();
+        assert_eq!(resp.status(), StatusCode::METHOD_NOT_ALLOWED);
+    }
+
+    #[actix_rt::test]
+    async fn test_default_resource_propagation_nested() {
+        let srv = init_service(
+            App::new()
+                .service(
+                    web::scope("/app1")
+                        .default_service(web::to(HttpResponse::BadRequest))
+                        .service(web::scope("/inner"))
+                        .service(
+                            web::scope("/own").default_service(web::to(HttpResponse::Conflict)),
+                        ),
+                )
+                .default_service(|r: ServiceRequest| {
+                    ok(r.into_response(HttpResponse::MethodNotAllowed()))
+                }),
+        )
+        .await;
+
+        let req = TestRequest::with_uri("/app1/inner/non-exist").to_request();
+        let resp = srv.call(req).await.unwrap();
+        assert_eq!(resp.status(), StatusCode::BAD_REQUEST);
+
+        let req = TestRequest::with_uri("/app1/own/non-exist").to_request();
+        let resp = srv.call(req).await.unwrap();
+        assert_eq!(resp.status(), StatusCode::CONFLICT);
+
+        let req = TestRequest::with_uri("/non-exist").to_request();
         let resp = srv.call(req).await.unwrap();
         assert_eq!(resp.status(), StatusCode::METHOD_NOT_ALLOWED);
     }
